@@ -207,6 +207,13 @@ func buildQuote(class string) ([]byte, error) {
 
 // runSources executes extract.Endorsement for one row.
 func runSources(r srcRow) (out []byte, errText string, urls []string, err error) {
+	return runSourcesVia(r, false)
+}
+
+// runSourcesVia: the same sources given to the library (extract.Endorsement) or, viaCLI, to the
+// `extract` command (attestation file, --eventlog, --efivarfs, --force_fetch; provider and getter in
+// the command's backend).
+func runSourcesVia(r srcRow, viaCLI bool) (out []byte, errText string, urls []string, err error) {
 	dir, err := os.MkdirTemp("", "vk-c16-")
 	if err != nil {
 		return nil, "", nil, err
@@ -281,7 +288,43 @@ func runSources(r srcRow) (out []byte, errText string, urls []string, err error)
 				xerr = fmt.Errorf("PANIC: %v", p)
 			}
 		}()
-		out, xerr = extract.Endorsement(opts)
+		if !viaCLI {
+			out, xerr = extract.Endorsement(opts)
+			return
+		}
+		io_ := &cliIO{files: map[string][]byte{}, out: map[string]*cliW{}}
+		args := []string{"extract", "--out", "out.bin", "--efivarfs", efidir}
+		if opts.EventLogLocation != "" {
+			args = append(args, "--eventlog", opts.EventLogLocation)
+		} else {
+			args = append(args, "--eventlog", filepath.Join(dir, "no-event-log-here"))
+		}
+		if r.Force {
+			args = append(args, "--force_fetch")
+		}
+		if q != nil {
+			io_.files["att.bin"] = q
+			args = append(args, "att.bin")
+		}
+		b := &gcmd.Backend{IO: io_, MakeEfiVariableReader: func(p string) exel.VariableReader { return exel.MakeEfiVarFSReader(p) }}
+		if rg != nil {
+			b.Getter = rg
+		}
+		switch pv := opts.Provider.(type) {
+		case *provider:
+			b.Provider = &levelProvider{pv}
+		default:
+			b.Provider = &levelProvider{&provider{fail: true}} // (not reached: rows without a provider are not run through the command)
+		}
+		root := gcmd.MakeRoot(gcmd.ContextWithBackend(context.Background(), b))
+		root.SetArgs(args)
+		root.SetOut(io.Discard)
+		root.SetErr(io.Discard)
+		root.SilenceErrors, root.SilenceUsage = true, true
+		xerr = root.Execute()
+		if w := io_.out["out.bin"]; w != nil && xerr == nil {
+			out = w.b
+		}
 	}()
 	if rg != nil {
 		urls = rg.urls
@@ -642,6 +685,22 @@ func RunC16(run *vk.Run) {
 		}
 		if strings.HasPrefix(et, "PANIC") {
 			run.Violation("panic", fmt.Sprintf("extraction panics: %s: %+v", et, r), rep)
+		}
+		// the extract command over the same sources (a provider of the library's "none" kind is a machine
+		// without a TEE device): what it writes, and what it asks the network for, is what the library returns
+		// (the command always has a provider object: the library's "no provider at all" has no command-line
+		// counterpart, a machine without a TEE device is the row with the failing provider)
+		if r.Provider != "none" {
+			outC, etC, urlsC, cerr := runSourcesVia(r, true)
+			if cerr != nil {
+				run.Infra(cerr)
+				return
+			}
+			if strings.HasPrefix(etC, "PANIC") {
+				run.Violation("panic:command", fmt.Sprintf("the extract command panics: %s: %+v", etC, r), rep)
+			} else if !bytes.Equal(out, outC) || (et == "") != (etC == "") || strings.Join(urls, " ") != strings.Join(urlsC, " ") {
+				run.Violation("command-differs-from-library", fmt.Sprintf("the extract command over the same sources returns %s (error %q, requests %v); the library returns %s (error %q, requests %v): %+v", blobName(outC), etC, urlsC, blobName(out), et, urls, r), rep)
+			}
 		}
 		if loc := localOf(r); loc != nil && !r.Force {
 			if !bytes.Equal(out, loc) {
